@@ -21,7 +21,8 @@ import sourmash.logging
 import sourmash.sbt as sbtmod
 from sourmash import MinHash, SourmashSignature
 from sourmash.sbt import SBT, GraphFactory
-from sourmash.sbtmh import load_sbt_index
+from sourmash.sbtmh import load_sbt_index, create_sbt_index, search_sbt_index, SigLeaf
+from sourmash.search import make_jaccard_search_query
 from sourmash.nodegraph import Nodegraph
 
 sourmash.logging.set_quiet(True, True)
@@ -72,20 +73,76 @@ def dump(t):
             m = n.metadata.get("min_n_below")
             s += f":{'-' if m is None else m}:{ng.n_occupied()}:{cov}/{len(bl)}"
         out.append(s)
+    # a second view of what the tree holds: tree.signatures() (manifest-driven on a loaded tree)
+    out.append(f"sv={sum(1 for _ in t.signatures())}")
     return "ok " + " ".join(out)
+
+
+def generic_leaf_probe(seed):
+    """The tree with the base `Leaf` class (a Nodegraph per leaf, `Leaf.update` = filter union), the original SBT
+    use: build by add_node, check that every ancestor's filter answers 'present' for everything counted into the
+    leaves beneath it, save (FS or zip), load with the default leaf loader, check again.  -> number of violations"""
+    import random
+    from sourmash.sbt import Leaf
+    rng = random.Random(seed)
+    d = rng.choice([2, 2, 3, 5])
+    factory = GraphFactory(1, rng.choice([100, 1000]), 4)
+    t = SBT(factory, d=d)
+    content = {}
+    for i in range(rng.randint(1, 14)):
+        ng = factory()
+        hs = [rng.randrange(2 ** 64) for _ in range(rng.randint(1, 5))]
+        for h in hs:
+            ng.count(h)
+        t.add_node(Leaf(f"l{i}", ng))
+        content[f"l{i}"] = hs
+
+    def bad(tree):
+        n = 0
+        if sorted(l.name for l in tree._leaves.values()) != sorted(content):
+            n += 1
+        for p, leaf in tree._leaves.items():
+            if not all(leaf.data.get(h) for h in content[leaf.name]) or not str(leaf).startswith("**Leaf:" + leaf.name):
+                n += 1
+            for a in ancestors(tree.d, p):
+                node = tree._nodes.get(a)
+                if a in tree._leaves or node is None or not all(node.data.get(h) for h in content[leaf.name]):
+                    n += 1
+        return n
+    n = bad(t)
+    tmp = tempfile.mkdtemp(prefix="c13_", dir=TMP)
+    try:
+        path = os.path.join(tmp, rng.choice(["g.sbt.json", "g.sbt.zip"]))
+        t.save(path)
+        n += bad(SBT.load(path, print_version_warning=False))
+    finally:
+        shutil.rmtree(tmp, ignore_errors=True)
+    return n
 
 
 class Ctx:
     def __init__(self):
         self.tree = None
+        self.stash = None
         self.scaled = 1
         self.dirs = []
         self.n = 0
         self.saved = None
+        self.path = None        # where the tree in use was loaded from
+        self.cache = 0
+        self.k = 0              # route counter (per case)
+        self.opno = 0
+        self.results = []       # every result object searches returned, kept alive
+        self.has_tables = True
 
     def reset(self):
         self.tree = None
+        self.stash = None
         self.saved = None
+        self.path = None
+        self.k = 0
+        self.opno = 0
+        self.results = []
         for d in self.dirs:
             shutil.rmtree(d, ignore_errors=True)
         self.dirs = []
@@ -171,11 +228,211 @@ class Ctx:
                             v["metadata"].pop("min_n_below", None)
             with open(path, "w") as f:
                 json.dump(info, f)
-        self.tree = load_sbt_index(path, print_version_warning=False, cache_size=(cache or None))
+        self.path, self.cache = path, cache
+        self.tree = load_tree(self, path, cache)
+        self.results = []
+
+    def damage(self, kind, k):
+        """damage one node file of the index the tree in use was loaded from, and load it again"""
+        if self.path is None:
+            raise KeyError
+        I, L = node_files(self.path)
+        if I is None or not I or not L:
+            raise KeyError
+        pos, w = I[k % len(I)]
+        lpos, lw = L[k % len(L)]
+        if kind == "del":
+            edits = {w: None}
+        elif kind == "trunc":
+            edits = {w: read_member(self.path, w)[:20]}
+        elif kind == "empty":
+            edits = {w: b""}
+        elif kind == "delleaf":
+            edits = {lw: None}
+            pos = lpos
+        elif kind == "swapleaf":
+            edits = {w: read_member(self.path, lw), lw: read_member(self.path, w)}
+        elif kind == "swap":
+            if len(I) < 2:
+                raise KeyError
+            pos2, w2 = I[(k + 1) % len(I)]
+            edits = {w: read_member(self.path, w2), w2: read_member(self.path, w)}
+        else:
+            raise KeyError
+        rewrite(self.path, edits)
+        self.tree = load_sbt_index(self.path, print_version_warning=False, cache_size=(self.cache or None))
+        self.results = []
+        return pos
 
 
 def exc_name(e):
     return type(e).__name__
+
+
+class ViewMismatch(Exception):
+    """two routes to the same fact about the tree disagree (reported as `err ViewMismatch`)"""
+
+
+def check_views(ctx, deep):
+    """Whatever can be read about the tree through two routes must agree.  Cheap checks after every op, the
+    ones that walk every leaf (`deep`) after the ops that change the tree."""
+    t = ctx.tree
+    if t is None:
+        return
+    if len(t) != len(t._leaves):
+        raise ViewMismatch("len(tree) != len(_leaves)")
+    d = t.d
+    for p in list(t._leaves)[:6] + list(t._nodes)[:6]:
+        if p != 0:
+            want = ancestors(d, p)
+            if list(t._parents(p)) != want:
+                raise ViewMismatch(f"_parents({p})")
+            if t.parent(p).pos != want[0]:
+                raise ViewMismatch(f"parent({p})")
+        ch = t.children(p)
+        if [c.pos for c in ch] != [d * p + i + 1 for i in range(d)]:
+            raise ViewMismatch(f"children({p})")
+        for i, c in enumerate(ch):
+            c2 = t.child(p, i)
+            if c2.pos != c.pos or c2.node is not c.node:
+                raise ViewMismatch(f"child({p},{i})")
+            want_node = t._leaves.get(c.pos, t._nodes.get(c.pos))
+            if c.node is not want_node:
+                raise ViewMismatch(f"children({p})[{i}].node")
+    if list(t._parents(0)) != [None] or t.parent(0) is not None:
+        raise ViewMismatch("_parents(0)")
+    if not deep:
+        return
+    names = sorted(l.data.name for l in t._leaves.values())
+    if sorted(l.data.name for l in t.leaves(unload_data=False)) != names:
+        raise ViewMismatch("leaves()")
+    if sorted(p for p, _ in t.leaves(with_pos=True, unload_data=False)) != sorted(t._leaves):
+        raise ViewMismatch("leaves(with_pos)")
+    if sorted(ss.name for ss, _ in t._signatures_with_internal()) != names:
+        raise ViewMismatch("_signatures_with_internal()")
+    if [(i, n) for i, n in t] != list(t._nodes.items()) + list(t._leaves.items()):
+        raise ViewMismatch("__iter__")
+    if ctx.k % 5 == 0 and ctx.has_tables:
+        # (a filter without tables -- GraphFactory(1, <= 3, n) -- makes expected_collisions, hence str(node) and
+        #  tree.print(), abort the process: finding C13.8, outside this view check)
+        import contextlib
+        import io
+        with contextlib.redirect_stdout(io.StringIO()) as f:
+            t.print()
+            t.print_dot()
+        for p, n in list(t._nodes.items())[:3]:
+            if "internal." + str(p) not in str(n) and not str(n).startswith("*Node:"):
+                raise ViewMismatch("Node.__str__")
+        for l in list(t._leaves.values())[:3]:
+            if not str(l).startswith("**Leaf:"):
+                raise ViewMismatch("SigLeaf.__str__")
+    # earlier results stay what they were
+    for op_no, kept in ctx.results:
+        for obj, name, md5, hashes in kept:
+            if obj.signature.name != name or obj.signature.md5sum() != md5 or list(obj.signature.minhash.hashes) != hashes:
+                raise ViewMismatch(f"a result returned by op {op_no} changed afterwards")
+
+
+def do_search(ctx, q, thr, c):
+    """one modelled search, several routes to it (chosen by a per-case counter the model does not see)"""
+    t = ctx.tree
+    k = ctx.k
+    threshold = thr / 1000.0
+    route = k % 5
+    if route == 1:
+        obj = make_jaccard_search_query(do_containment=(c == 1), do_max_containment=(c == 2), threshold=threshold)
+        r = list(t.find(obj, q))
+    elif route == 2 and c == 0:
+        r0 = list(search_sbt_index(t, q, threshold))           # yields (match, score)
+        r = None
+        names = [m.name for m, _ in r0]
+    elif route == 3:
+        r = t.search(q, threshold=threshold, do_containment=(c == 1), do_max_containment=(c == 2), unload_data=False)
+    elif route == 4 and not t._missing_nodes:
+        # (breadth-first visits the same nodes unless a repair on the way raises, which only a tree with missing nodes does)
+        r = t.search(q, threshold=threshold, do_containment=(c == 1), do_max_containment=(c == 2), dfs=False)
+    else:
+        r = t.search(q, threshold=threshold, do_containment=(c == 1), do_max_containment=(c == 2))
+    if r is not None:
+        names = [m.signature.name for m in r]
+        ctx.results.append((ctx.opno, [(m, m.signature.name, m.signature.md5sum(), list(m.signature.minhash.hashes)) for m in r]))
+        if len(ctx.results) > 12:
+            ctx.results.pop(0)
+        for m in r:
+            if m.location != t.location:
+                raise ViewMismatch("result.location != tree.location")
+    return "ok " + ",".join(str(x) for x in sorted(int(n) for n in names))
+
+
+def load_tree(ctx, path, cache):
+    k = ctx.k
+    cs = cache or None
+    if k % 3 == 1:
+        return SBT.load(path, leaf_loader=SigLeaf.load, print_version_warning=False, cache_size=cs)
+    if k % 3 == 2 and cs is None:
+        import sourmash as sm
+        t = sm.load_file_as_index(path)
+        if isinstance(t, SBT):
+            return t
+    return load_sbt_index(path, print_version_warning=False, cache_size=cs)
+
+
+def node_files(path):
+    """(internal node files, leaf files) of a saved index, as (container, member) pairs, sorted by position"""
+    import zipfile
+    if path.endswith(".zip"):
+        with zipfile.ZipFile(path) as z:
+            idx = [n for n in z.namelist() if n.endswith(".sbt.json")][0]
+            info = json.loads(z.read(idx))
+        sub = info["storage"]["args"]["path"]
+        where = lambda fn: ("zip", sub + "/" + fn)
+    else:
+        info = json.load(open(path))
+        if isinstance(info, list) or info.get("version", 6) < 3:
+            return None, None
+        sub = info["storage"]["args"]["path"]
+        where = lambda fn: ("fs", os.path.join(os.path.dirname(path), sub, fn))
+    if info["version"] >= 5:
+        ints = info["nodes"]
+        leaves = info.get("signatures", info.get("leaves"))
+    else:
+        ints = {k: v for k, v in info["nodes"].items() if v is not None and "internal" in v["name"]}
+        leaves = {k: v for k, v in info["nodes"].items() if v is not None and "internal" not in v["name"]}
+    I = [(int(k), where(v["filename"])) for k, v in sorted(ints.items(), key=lambda kv: int(kv[0]))]
+    L = [(int(k), where(v["filename"])) for k, v in sorted(leaves.items(), key=lambda kv: int(kv[0]))]
+    return I, L
+
+
+def rewrite(path, edits):
+    """apply {member: new bytes | None (delete)} to the saved index"""
+    import zipfile
+    fs = {m: b for (kind, m), b in edits.items() if kind == "fs"}
+    for m, b in fs.items():
+        if b is None:
+            os.remove(m)
+        else:
+            open(m, "wb").write(b)
+    zp = {m: b for (kind, m), b in edits.items() if kind == "zip"}
+    if zp:
+        with zipfile.ZipFile(path) as z:
+            items = [(n, z.read(n)) for n in z.namelist()]
+        os.remove(path)
+        with zipfile.ZipFile(path, "w") as z:
+            for n, b in items:
+                if n in zp:
+                    if zp[n] is None:
+                        continue
+                    b = zp[n]
+                z.writestr(n, b)
+
+
+def read_member(path, where):
+    import zipfile
+    kind, m = where
+    if kind == "fs":
+        return open(m, "rb").read()
+    with zipfile.ZipFile(path) as z:
+        return z.read(m)
 
 
 def main():
@@ -188,6 +445,8 @@ def main():
                 out.write("bad-op\n")
                 continue
             op, a = w[0], w[1:]
+            ctx.k += 1
+            ctx.opno += 1
             try:
                 if op == "#":
                     ctx.reset()
@@ -199,21 +458,47 @@ def main():
                     if bf == 0 or sc == 0 or len(a) > 4:
                         raise KeyError
                     ctx.scaled = sc
-                    ctx.tree = SBT(GraphFactory(1, bf, nt), d=d)
+                    ctx.has_tables = bool(Nodegraph(1, bf, nt).hashsizes())
+                    ctx.path = None
+                    ctx.results = []
+                    if nt == 4 and ctx.k % 2 == 0:
+                        ctx.tree = create_sbt_index(bf, n_children=d)      # the route `sourmash index` takes
+                    else:
+                        ctx.tree = SBT(GraphFactory(1, bf, nt), d=d)
                     res = "ok sizes=" + ",".join(str(x) for x in Nodegraph(1, bf, nt).hashsizes())
+                elif op == "genericleaf":
+                    res = f"ok {generic_leaf_probe(int(a[0]))}"
+                elif op == "loadpath" and len(a) == 2:
+                    ctx.tree = load_sbt_index(a[0], print_version_warning=False, cache_size=(int(a[1]) or None))
+                    ctx.path = a[0]
+                    res = "ok"
                 elif ctx.tree is None:
                     res = "bad-op"
                 elif op == "ins":
                     ident = int(a[0])
                     hs = [int(x) for x in a[1:]]
                     t = ctx.tree
-                    t.insert(mk_sig(ident, hs, ctx.scaled))
+                    sig = mk_sig(ident, hs, ctx.scaled)
+                    if ctx.k % 2:
+                        t.insert(sig)
+                    else:
+                        t.add_node(SigLeaf(sig.md5sum(), sig))
                     pos = [p for p, l in t._leaves.items() if l.data.name == str(ident)]
                     res = f"ok n={len(t._leaves)} pos={pos[0] if pos else '-'}"
+                    check_views(ctx, True)
                 elif op == "dump":
                     if a:
                         raise KeyError
                     res = dump(ctx.tree)
+                    if dump(ctx.tree) != res:
+                        raise ViewMismatch("two walks of the same tree differ")
+                    check_views(ctx, True)
+                elif op == "stash":
+                    if a:
+                        raise KeyError
+                    ctx.stash, ctx.tree = ctx.tree, None
+                    ctx.results = []
+                    res = "ok"
                 elif op == "probe":
                     t = ctx.tree
                     mh = MinHash(0, 21, scaled=1)
@@ -225,6 +510,7 @@ def main():
                         raise KeyError
                     ctx.saveload(sp, seed, ver, cache)
                     res = "ok"
+                    check_views(ctx, True)
                 elif op == "saveas":
                     sp, seed, fmt = map(int, a)
                     if fmt not in (0, 1, 2):
@@ -235,26 +521,42 @@ def main():
                     (cache,) = map(int, a)
                     if ctx.saved is None:
                         raise KeyError
-                    res = dump(load_sbt_index(ctx.saved, print_version_warning=False, cache_size=(cache or None)))
+                    res = dump(load_tree(ctx, ctx.saved, cache))
                 elif op == "search":
                     c, thr = int(a[0]), int(a[1])
                     if c not in (0, 1):
                         raise KeyError
                     q = mk_sig("q", [int(x) for x in a[2:]], ctx.scaled)
-                    r = ctx.tree.search(q, threshold=thr / 1000.0, do_containment=bool(c))
-                    res = "ok " + ",".join(str(x) for x in sorted(int(m.signature.name) for m in r))
+                    res = do_search(ctx, q, thr, c)
+                    check_views(ctx, False)
                 elif op == "searchs":
                     c, thr, sq = int(a[0]), int(a[1]), int(a[2])
                     if c not in (0, 1, 2) or sq == 0:
                         raise KeyError
                     q = mk_sig("q", [int(x) for x in a[3:]], sq)
-                    r = ctx.tree.search(q, threshold=thr / 1000.0, do_containment=(c == 1), do_max_containment=(c == 2))
-                    res = "ok " + ",".join(str(x) for x in sorted(int(m.signature.name) for m in r))
+                    res = do_search(ctx, q, thr, c)
+                    check_views(ctx, False)
                 elif op == "select":
                     ks, sc, cont = map(int, a)
                     if cont not in (0, 1):
                         raise KeyError
                     ctx.tree.select(ksize=ks, scaled=sc, containment=bool(cont))
+                    res = "ok"
+                elif op == "combine":
+                    if a or ctx.stash is None:
+                        raise KeyError
+                    other, ctx.stash = ctx.stash, None
+                    if not len(ctx.tree) or not len(other) or other.d != ctx.tree.d:
+                        raise KeyError
+                    ctx.tree = ctx.tree.combine(other)
+                    ctx.results = []
+                    res = f"ok n={len(ctx.tree._leaves)}"
+                elif op == "damage":
+                    kind, k = a[0], int(a[1])
+                    res = f"ok {ctx.damage(kind, k)}"
+                elif op == "loadpath":
+                    ctx.tree = load_sbt_index(a[0], print_version_warning=False, cache_size=(int(a[1]) or None))
+                    ctx.path = a[0]
                     res = "ok"
                 elif op == "rebuild":
                     (p,) = map(int, a)
